@@ -809,8 +809,20 @@ func buildResponse(rng *rand.Rand, sc *Scenario, m methodInfo, ss serverSide, e 
 			sc.gen.respClean = false
 		}
 	case 1: // write after the end
-		script = append(script, []string{"write", hx(envelope(0, []byte("late")))})
-		e.Class("resp:late-write")
+		last := -1
+		for i := range script {
+			if script[i][0] == "write" && script[i][1] != "-" {
+				last = i
+			}
+		}
+		if last >= 0 && rng.IntN(2) == 0 {
+			// ... in the same Write call as the end of the stream
+			script[last] = []string{"write", script[last][1] + hx(pick(rng, [][]byte{[]byte("xyz"), envelope(0, []byte("late")), {0}}))}
+			e.Class("resp:stray-bytes-same-write")
+		} else {
+			script = append(script, []string{"write", hx(envelope(0, []byte("late")))})
+			e.Class("resp:late-write")
+		}
 		sc.gen.respClean = false
 	case 2: // corrupt a written byte
 		for i := range script {
@@ -1081,7 +1093,10 @@ func normalizeSegmentation(sc *Scenario) *Scenario {
 		switch op[0] {
 		case "flush":
 			continue
-		case "readn":
+		case "readn", "readfix":
+			// (a fixed-buffer reader stops after a number of bytes that depends on how the body
+			// arrives: that is the handler's choice, not the transcoder's, so the normal form reads
+			// an exact number of bytes)
 			script = append(script, []string{"readn", op[1], "65536"})
 		case "readall":
 			script = append(script, []string{"readall", "65536"})
@@ -1129,6 +1144,13 @@ func streamChunk(e *Emitter, rng *rand.Rand, tier string) {
 	}
 	for i := 0; i < n; i++ {
 		sc := genScenario(e, rng)
+		for j, op := range sc.Script {
+			if op[0] == "readfix" {
+				// how much a fixed-buffer reader takes depends on how the body arrives; that is the
+				// handler's doing, so the segmentation pairs use readers that take an exact amount
+				sc.Script[j] = []string{"readn", op[1], op[2]}
+			}
+		}
 		a, _ := json.Marshal(normalizeSegmentation(sc))
 		var other *Scenario
 		if rng.IntN(2) == 0 {
